@@ -203,8 +203,10 @@ def twin_sample_for_property(prop, sites, seed=0, n=32, jobs=16, src_root="/repo
         for m in twins_of(s, fn):
             if m[1] != "comment":
                 work.append(("rewrite", rel, qn) + m)
+        argnames = {a.arg for x in ast.walk(fn) for a in ([] if not isinstance(x, (ast.FunctionDef, ast.AsyncFunctionDef, ast.Lambda)) else x.args.args + x.args.kwonlyargs)}
         for name in sorted(locs.get(os.path.basename(rel)[:-3], {}).get(qn, {})):
-            if name != fn.name:
+            # a name that is also a parameter of the function or of a nested function is not renamed: the token-level rename would leave `name=default` in the signature
+            if name != fn.name and name not in argnames:
                 work.append(("rename", rel, qn, fn.lineno, "rename", None, name, "local `%s` renamed" % name))
     rnd = random.Random("twins-%s-%s" % (prop, seed))
     rnd.shuffle(work)
